@@ -63,3 +63,4 @@ static inline void cstring__reserve(cstring *s, unsigned long n)
   __CPROVER_assert(n <= s->len + g_avail || n <= s->len + 65535UL, "string.reserve: allocation not sized by an unchecked length field");
 }
 static inline void cstring__push_back(cstring *s, char c) { if (g_exc) return; __CPROVER_assume(s->len < (1UL << 62)); /* strings shorter than 2^62 */ s->len++; }
+static inline void cstring__append(cstring *s, char *p, unsigned long n) { if (g_exc) return; __CPROVER_assert(__CPROVER_r_ok(p, n), "string.append: source range readable"); __CPROVER_assume(s->len < (1UL << 62) && n < (1UL << 62)); s->len += n; }
